@@ -1,5 +1,6 @@
 import Obao.Model.RequestAuthz
 import Obao.Model.ControlGroup
+import Obao.Proofs.AuthzNamespace
 /-!
 C03 (last clause, at the level of `Core.Capabilities`): "the capability list reported for a path agrees with the
 operations actually permitted on it" — for a token of one namespace used in ANOTHER (a parent-namespace token
@@ -159,6 +160,14 @@ theorem core_capabilities_token_ns_cex :
   ⟨[Rule.parse (cs "team/secret/*") { Caps.none with read := true, list := true }], cs "team/", [], cs "secret/a",
    by intro r hr; simp only [List.mem_singleton] at hr; rw [hr]; exact parse_normal _ _,
    by decide, by decide, by decide⟩
+
+/-- **capabilities_namespace_invariant.** The capability report inside a namespace is the report the un-prefixed
+rules give for the namespace-relative path (same hypotheses as `C02.authorisation_namespace_invariant`). -/
+theorem capabilities_namespace_invariant (ns : Path) (rules : List Rule) (p : Path)
+    (hns : ns ≠ []) (hns0 : ns.head? ≠ some '/') (hp : p ≠ []) (hp0 : p.head? ≠ some '/') :
+    capabilityList false (rules.map (Rule.inNs ns)) (ns ++ p) = capabilityList false rules p := by
+  unfold capabilityList
+  rw [selectPerms_inNs ns rules .list p hns hns0 hp hp0]
 
 /-! ### "the decision is independent of the order in which policies are attached": the control group of a pattern -/
 section CGOrder
